@@ -4,8 +4,10 @@ import (
 	"bytes"
 	"encoding/json"
 	"fmt"
+	"strings"
 
 	"github.com/fiorix/go-diameter/v4/diam"
+	"github.com/fiorix/go-diameter/v4/diam/dict"
 	"verif/internal/atoms"
 	"verif/internal/ev"
 	"verif/internal/refcodec"
@@ -176,6 +178,50 @@ func runC01(ctx *ev.Ctx) {
 			ctx.Report(c01Class(mt, what), generalise(what), what+" | case: "+mt.Desc(), mt)
 		}
 	})
+	// a dictionary that grows after first use: the parser first decodes the AVPs while they are
+	// still undefined (opaque), then the dictionary defining them is loaded, then the round trip runs
+	if c := ConfigByName("generated/app0"); c != nil && ctx.Mine() {
+		_, mid, _ := c.Atoms(false)
+		p, err := dict.NewParser()
+		if err != nil {
+			ev.Infra("%v", err)
+		}
+		stub := `<?xml version="1.0" encoding="UTF-8"?><diameter><application id="0" name="Gen"><command code="777" short="GT" name="Gen-Test"><request><rule avp="Stub-Note" required="false"/></request><answer><rule avp="Stub-Note" required="false"/></answer></command><avp name="Stub-Note" code="79999" must="-" may="P" must-not="V" may-encrypt="-"><data type="UTF8String"/></avp></application></diameter>`
+		if err := p.Load(strings.NewReader(stub)); err != nil {
+			ev.Infra("stub dictionary: %v", err)
+		}
+		hd := c.Headers(1)[0]
+		for _, a := range mid {
+			w := refcodec.EncodeMessage(hd, atoms.RefNodes([]atoms.N{a}))
+			if _, err := diam.ReadMessage(bytes.NewReader(w), p); err != nil {
+				ctx.Report("", "a message with a not yet defined AVP cannot be read", "a message with a not yet defined AVP cannot be read: "+err.Error()+" | "+a.Desc(), nil)
+			}
+		}
+		for _, x := range c.A.D.XMLs {
+			// the command is already defined by the stub: load the AVP definitions only
+			var kept []string
+			for _, l := range strings.Split(x, "\n") {
+				if !strings.HasPrefix(strings.TrimSpace(l), "<command ") {
+					kept = append(kept, l)
+				}
+			}
+			if err := p.Load(strings.NewReader(strings.Join(kept, "\n"))); err != nil {
+				ev.Infra("generated dictionary: %v", err)
+			}
+		}
+		a2, d2 := *c.A, *c.A.D
+		d2.P = p
+		a2.D = &d2
+		c2 := &Config{Name: c.Name, A: &a2}
+		for _, a := range mid {
+			t := TreeCase{Config: c.Name, Hdr: hd, Tree: []atoms.N{a}, Note: "dictionary loaded after the parser had decoded this AVP as undefined"}
+			ctx.Eval(ev.Mix(t.Key(), 77))
+			if what := c01Eval(c2, t); what != "" {
+				ctx.Report("", generalise(what), "the dictionary defining the AVP was loaded after the parser had already decoded it as undefined: "+what+" | case: "+t.Desc(), t)
+			}
+		}
+	}
+	ctx.Rule += " One configuration is also exercised with a dictionary that grows after first use: the parser decodes every AVP of the alphabet while it is still undefined, the defining dictionary is loaded, then the round trips run on that parser."
 	ctx.Rule += " Every case is written with WriteTo into a destination that, before it consumes the bytes, lets another message pass through WriteTo on another writer; and every wire image is read a second time overlapping with a complete read from another source (nested inside the reader's third Read call, i.e. after the header and half of the body), after a message too large for the pooled read buffer has been read."
 	ctx.Assume = []string{"refcodec (independent RFC 6733 encoder) is correct; it has its own self-test", "values are drawn from finite boundary-first alphabets per data type; nothing outside them is claimed"}
 }
